@@ -89,7 +89,9 @@ def gen_case(rng, params, idx):
     for a in rng.sample(plain, 4):
         lvl1 += [["X", a], ["S", a]]
     lvl1 += [["H", "fly"], ["H", "bit_length"]]
-    lvl1 += [["L", 0], ["L", 0, 1], ["L", "a"], ["L", 1], ["L", True]]
+    # also multi-valued Literals mixing ints and bools (values that are == across types: 1 / True, 0 / False)
+    lvl1 += [["L", 0], ["L", 0, 1], ["L", "a"], ["L", 1], ["L", True], ["L", 1, True], ["L", 1, False], ["L", 0, True],
+             ["L", False, 1], ["L", 0, "a"], ["L", "a", 0]]
     lvl1 += [["D", "int", "pos"], ["D", rng.choice(names), "truthy"], ["D", "object", "truthy"], ["D", "MyInt", "even"]]
     lvl1 += [["T", "int", "str"], ["T", rng.choice(names)], ["T", "int"], ["T"]]
     for a in rng.sample(plain, 3):
@@ -145,19 +147,24 @@ def _hook(t, other, objs, env, norm=None):
         base = env.cls(t[1])
         return Order.LESS if oo is base else real(base, oo)
     if h in ("D", "L", "T"):
-        b = T.bound_of(t, env)
-        if not isinstance(b, str):
+        def bound_obj(x):
+            b = T.bound_of(x, env)
+            if b is None:
+                return None
+            # a Literal mixing value types is bounded by the union of those types
+            return env.cls(b) if isinstance(b, str) else normalize_type(T.ann(b, env), None)
+        bound = bound_obj(t)
+        if bound is None:
             return None
-        bound = env.cls(b)
         if not isinstance(other, str) and other[0] in ("D", "L", "T"):
             if h == "T" and other[0] == "T":
                 if len(t) != len(other):
                     return Order.NONE
                 return Order.merge(real((norm or objs)[T.tname(x)], (norm or objs)[T.tname(y)]) for x, y in zip(t[1:], other[1:]))
-            ob = T.bound_of(other, env)
-            if not isinstance(ob, str):
+            ob = bound_obj(other)
+            if ob is None:
                 return None
-            o = real(bound, env.cls(ob))
+            o = real(bound, ob)
             return Order.NONE if o is Order.SAME else o
         return Order.LESS if (subclasscheck(oo, bound) or subclasscheck(bound, oo)) else Order.NONE
     return None
